@@ -31,7 +31,7 @@ theorem runFull_early (o : RunOpts) (r : RunIn) (h : stopsEarly o = true) :
   unfold runFull earlyResult
   unfold stopsEarly at h
   cases h1 : o.listPlugins <;> cases h2 : o.checkPrereqsOnly <;> cases h3 : o.prereqsOk <;>
-    cases h4 : o.optionsValid <;> cases h5 : o.anyModule <;> simp_all
+    cases h4 : o.optionsValid <;> cases h5 : o.anyModule <;> cases h6 : readData o.input <;> simp_all
 
 /-- past the early exits the run is `_run_antismash`'s tail on the directory logging left -/
 theorem runFull_late (o : RunOpts) (r : RunIn) (h : stopsEarly o = false) :
@@ -48,8 +48,8 @@ theorem runFull_late (o : RunOpts) (r : RunIn) (h : stopsEarly o = false) :
       | none, t => ⟨⟨s.2 ++ out.trace, none, t⟩, some 0⟩ := by
   unfold stopsEarly at h
   simp only [Bool.or_eq_false_iff, Bool.not_eq_false'] at h
-  obtain ⟨⟨⟨⟨h1, h2⟩, h3⟩, h4⟩, h5⟩ := h
-  simp only [runFull, h1, h2, h3, h4, h5, Bool.false_eq_true, if_false, Bool.not_true, runTail, RunIn.toPipe,
+  obtain ⟨⟨⟨⟨⟨h1, h2⟩, h3⟩, h4⟩, h5⟩, h6⟩ := h
+  simp only [runFull, h1, h2, h3, h4, h5, h6, Bool.false_eq_true, if_false, Bool.not_true, runTail, RunIn.toPipe,
     RunIn.jsonName, effective_target, afterLogging]
   rfl
 
